@@ -47,7 +47,7 @@ Print Assumptions C23_no_crash.
    having sent NOTIFICATION 1/1. *)
 Definition ex_cfg : cfg :=
   {| c_las := 65001; c_pas := 65002; c_rid := 10; c_hold := 90; c_v4 := true; c_v6 := true;
-     c_apr4 := false; c_aps4 := false; c_apr6 := false; c_aps6 := false; c_mp4 := false;
+     c_apr4 := false; c_aps4 := false; c_apr6 := false; c_aps6 := false; c_mp4 := false; c_nx4 := false;
      c_role := 0; c_strict := false; c_rr := false; c_cluster := 0; c_imp := ImpAccept; c_passive := false |}.
 Definition ex_open : open_msg :=
   {| o_ver := 4; o_asn := 65002; o_hold := 30; o_id := 7; o_caps := [CapASN4 65002; CapMP 2 1] |}.
